@@ -416,6 +416,202 @@ fn harden(rng: &mut Rng, thorough: bool, emit: &mut dyn FnMut(String)) {
     }
     edge_of_range(rng, thorough, emit);
     ordered(rng, thorough, emit);
+    round6(rng, thorough, emit);
+}
+
+/// x moved by one unit in the last place (1: away from 0, 2: towards 0) or by 2^-40 relative (3); 0: unchanged
+fn nudge(x: f64, mode: u64) -> f64 {
+    if x == 0.0 || !x.is_finite() {
+        return x;
+    }
+    match mode % 4 {
+        0 => x,
+        1 => f64::from_bits(x.to_bits() + 1),
+        2 => f64::from_bits(x.to_bits() - 1),
+        _ => x * (1.0 + 2f64.powi(-40)),
+    }
+}
+
+/// SIXTH SEEDED ROUND (DESIGN.md section 17).
+/// (O) BLOCK BOUNDARIES: lengths blk-1, blk, blk+1, blk+2, 2 blk+1 for blk = 4, 8, 16, 32, 64, 128, 256, 512, 1024 with
+///     NON-constant, non-symmetric data in four shapes (distinct integers, dyadics, "a large distinctive value exactly at
+///     the block seam / in the tail, the rest small" - a dropped, repeated or overwritten chunk, a remainder loop that
+///     starts one element late, an accumulator that is reset per block changes the answer by far more than rounding -
+///     and positive log-uniform data), every request kind (mean, both deviations, sample-vs-population, an exact
+///     translation, an exact scaling, the geometric mean).
+/// (P) RESONANT / EXACT-RELATION DATA: small integers / dyadics (all sums exact in binary64) arranged so that a quantity of
+///     the computation is exactly 0 or 1 or two quantities are exactly equal: mean exactly 0, +-1, 2^k, equal to one of the
+///     values (a deviation exactly 0), equal to the population deviation (|mean| == sigma), variance exactly 1 (either
+///     denominator), n = 2 (the sample denominator is exactly 1), a translation by exactly -mean / -x_0 / -max / 0, a
+///     factor exactly +-1, geometric means whose product is exactly 1 / a perfect n-th power / contains a value exactly 1
+///     - and each of these relations MISSED by one unit in the last place or by 2^-40 relative in one element (the mean is
+///     then 1e-16 .. 1e-12 of the data instead of 0: a quotient by the mean, a "relative deviation", an `if mean == ..`
+///     shortcut taken or not taken shows here and nowhere else).
+fn round6(rng: &mut Rng, thorough: bool, emit: &mut dyn FnMut(String)) {
+    let reps = if thorough { 6 } else { 1 };
+    let mut k = 0usize;
+    // ---- (O)
+    for rep in 0..reps {
+        for &blk in &[4usize, 8, 16, 32, 64, 128, 256, 512, 1024] {
+            for n in [blk - 1, blk, blk + 1, blk + 2, 2 * blk + 1] {
+                for shape in 0..4usize {
+                    if blk >= 512 && !thorough && shape == 1 {
+                        continue;
+                    }
+                    k += 1;
+                    let xs: Vec<f64> = match shape {
+                        // distinct integers, not monotone, not symmetric (all sums exact)
+                        0 => (0..n).map(|i| ((i * i + 3 * i + rep) % 211) as f64 - 60.0 + (i % 7) as f64 * 256.0).collect(),
+                        // dyadic rationals
+                        1 => (0..n).map(|_| rng.dyadic(1 << 16, 8)).collect(),
+                        // small values, a large one at the seam(s) and at the very end
+                        2 => {
+                            let mut v: Vec<f64> = (0..n).map(|i| ((i * 5 + 1) % 9) as f64 / 8.0).collect();
+                            let seams = [blk - 1, blk, blk + 1, n - 1, n - 2, 2 * blk - 1, 2 * blk];
+                            let pick = seams[k % seams.len()];
+                            if pick < n {
+                                v[pick] = *rng.pick(&[4096.0, -4096.0, 1e5, -65536.0, 999_999.0]);
+                            }
+                            if k % 3 == 0 && blk < n {
+                                v[blk] = -3000.5;
+                            }
+                            v
+                        }
+                        // positive, log-uniform (ordinary product of logs; the arithmetic statistics too)
+                        _ => (0..n).map(|_| 10f64.powf(rng.uniform(-3.0, 5.0))).collect(),
+                    };
+                    let kd = if k % 2 == 0 { "p" } else { "s" };
+                    emit(format!("mean {}", req_vec_f(&xs)));
+                    emit(format!("std {kd} {}", req_vec_f(&xs)));
+                    if shape != 1 {
+                        emit(format!("samplepop {}", req_vec_f(&xs)));
+                    }
+                    if shape == 0 || shape == 2 {
+                        // exact: integers / eighths plus an integer, times a power of two
+                        let c = *rng.pick(&[1.0, -64.0, 1000.0, 4096.0, -3.0]);
+                        emit(format!("translate {kd} {} {}", rbits(c), req_vec_f(&xs)));
+                        let f = *rng.pick(&[-1.0, 2.0, -0.5, 0.25, 8.0]);
+                        emit(format!("scale {kd} {} {}", rbits(f), req_vec_f(&xs)));
+                    }
+                    let ps: Vec<f64> = xs.iter().map(|x| if *x == 0.0 { 0.375 } else { x.abs() }).collect();
+                    emit(format!("geom {}", req_vec_f(&ps)));
+                }
+            }
+        }
+    }
+    // ---- (P)
+    let lens: [usize; 14] = [2, 2, 3, 4, 5, 6, 8, 9, 15, 16, 17, 33, 64, 200];
+    for _ in 0..reps {
+        for pattern in 0..12usize {
+            for &n in &lens {
+                for mode in 0..4u64 {
+                    k += 1;
+                    let unit = *rng.pick(&[1.0, 1.0, 0.125, 16.0, 2f64.powi(-20), 1024.0]);
+                    // integers d_i with sum exactly 0, not symmetric
+                    let mut d: Vec<f64> = (0..n - 1).map(|_| rng.range(-40, 40) as f64).collect();
+                    let tot: f64 = d.iter().sum();
+                    d.push(-tot);
+                    let m = *rng.pick(&[1.0, -1.0, 2.0, 0.5, 64.0, -3.0, 7.0, 1000.0]);
+                    let mut xs: Vec<f64> = match pattern {
+                        // mean exactly 0
+                        0 => d.clone(),
+                        // mean exactly m
+                        1 => d.iter().map(|v| v + m).collect(),
+                        // mean exactly m and one value exactly equal to it
+                        2 => {
+                            let mut v: Vec<f64> = d.iter().map(|x| x + m).collect();
+                            if n >= 3 {
+                                let (i, j) = (k % n, (k + 1) % n);
+                                let mv = v[i] - m;
+                                v[i] = m;
+                                v[j] += mv;
+                            }
+                            v
+                        }
+                        // two-valued: m - 1, m + 1 in equal numbers (even n: mean m, population variance exactly 1)
+                        3 => (0..n).map(|i| if (i * 7 + k) % 2 == 0 { m - 1.0 } else { m + 1.0 }).collect(),
+                        // 0 and 2 m: mean m, population deviation exactly |m| (even n)
+                        4 => (0..n).map(|i| if i % 2 == 0 { 0.0 } else { 2.0 * m }).collect(),
+                        // sample variance exactly 1: (n - 1) | sum of squares: m + {1, -1, 0, 0, ...} has sum of squares 2: n = 3
+                        5 => (0..n).map(|i| m + if i == 0 { 1.0 } else if i == n - 1 { -1.0 } else { 0.0 }).collect(),
+                        // mean exactly 1 / -1 with large deviations (x / mean is x itself)
+                        6 => d.iter().map(|v| 25.0 * v + if k % 2 == 0 { 1.0 } else { -1.0 }).collect(),
+                        // sum exactly one unit: the mean is 1/n of the unit, tiny against the data
+                        7 => {
+                            let mut v: Vec<f64> = d.iter().map(|x| x * 1024.0).collect();
+                            v[k % n] += 1.0;
+                            v
+                        }
+                        // all but one value equal; the odd one exactly n-1 times as far on the other side of 0: mean 0
+                        8 => (0..n).map(|i| if i == k % n { -((n - 1) as f64) * m } else { m }).collect(),
+                        // partial sums return to exactly 0 at every block of 4 / 8 (a per-block shortcut on a zero sum)
+                        9 => (0..n).map(|i| { let b = if k % 2 == 0 { 4 } else { 8 }; let j = i % b; if j == b - 1 { -(((b - 1) * b / 2) as f64) } else { (j + 1) as f64 } }).collect(),
+                        // the first value equals the mean of the rest (running-mean updates with a zero increment)
+                        10 => {
+                            let mut v = d.clone();
+                            v.iter_mut().for_each(|x| *x += m);
+                            v[0] = m;
+                            let s: f64 = v.iter().skip(1).sum::<f64>() - m * (n - 1) as f64;
+                            let last = n - 1;
+                            v[last] -= s;
+                            v
+                        }
+                        // squares sum to a power of two and the mean is 0: +-2^j pairs
+                        _ => (0..n).map(|i| { let j = (i / 2 % 5) as i32; if n % 2 == 1 && i == n - 1 { 0.0 } else if i % 2 == 0 { 2f64.powi(j) } else { -2f64.powi(j) } }).collect(),
+                    };
+                    for x in xs.iter_mut() {
+                        *x *= unit;
+                    }
+                    // the relation missed by one ulp / by 2^-40 in one element
+                    let at = (k * 5 + 1) % n;
+                    let at = if xs[at] == 0.0 { xs.iter().position(|x| *x != 0.0).unwrap_or(at) } else { at };
+                    xs[at] = nudge(xs[at], mode);
+                    let kd = if k % 2 == 0 { "p" } else { "s" };
+                    emit(format!("mean {}", req_vec_f(&xs)));
+                    emit(format!("samplepop {}", req_vec_f(&xs)));
+                    if k % 3 == 0 {
+                        emit(format!("std {kd} {}", req_vec_f(&xs)));
+                    }
+                    // translations by exactly -mean (integer data: exact), -x_0, -max, 0; factors exactly +-1
+                    if mode == 0 {
+                        let mean = xs.iter().sum::<f64>() / n as f64;
+                        let mx = xs.iter().cloned().fold(f64::MIN, f64::max);
+                        let c = match k % 5 { 0 => -mean, 1 => -xs[0], 2 => -mx, 3 => 0.0, _ => mean };
+                        emit(format!("translate {kd} {} {}", rbits(c), req_vec_f(&xs)));
+                        let f = match k % 6 { 0 => 1.0, 1 => -1.0, 2 => nudge(1.0, 1), 3 => nudge(-1.0, 2), 4 => -0.0, _ => 1.0 + 2f64.powi(-40) };
+                        emit(format!("scale {kd} {} {}", rbits(f), req_vec_f(&xs)));
+                    }
+                }
+            }
+        }
+        // geometric means with exact relations: product exactly 1 (2^j and 2^-j), all ones, a value exactly 1 among
+        // others, perfect n-th powers (g^n for small integer / dyadic g, split into factors), each also nudged
+        for &n in &[1usize, 2, 3, 4, 5, 8, 9, 16, 17, 33, 64, 65, 128, 200] {
+            for pattern in 0..6usize {
+                for mode in 0..4u64 {
+                    k += 1;
+                    let mut xs: Vec<f64> = match pattern {
+                        0 => vec![1.0; n],
+                        1 => (0..n).map(|i| { let j = (i / 2 % 9 + 1) as i32; if n % 2 == 1 && i == n - 1 { 1.0 } else if i % 2 == 0 { 2f64.powi(j) } else { 2f64.powi(-j) } }).collect(),
+                        2 => (0..n).map(|i| if i == k % n { 1.0 } else { rng.range(1, 40) as f64 / 4.0 }).collect(),
+                        // g^n as n factors g a_i / a_{i+1} (cyclic): product exactly g^n, exact while the a_i are powers of two
+                        3 => {
+                            let g = *rng.pick(&[2.0, 3.0, 0.5, 10.0, 1.5, 6.0, 0.75]);
+                            let a: Vec<f64> = (0..n).map(|_| 2f64.powi(rng.range(-6, 6) as i32)).collect();
+                            (0..n).map(|i| g * a[i] / a[(i + 1) % n]).collect()
+                        }
+                        // squares / cubes: [a^2, b^2] -> a b
+                        4 => (0..n).map(|i| { let a = (i % 5 + 2) as f64; if k % 2 == 0 { a * a } else { a * a * a } }).collect(),
+                        // constant sample of a value whose logarithm is tiny: 1 + j 2^-52
+                        _ => vec![f64::from_bits(1f64.to_bits() + (k % 5) as u64); n],
+                    };
+                    let at = (k * 3 + 1) % n;
+                    xs[at] = nudge(xs[at], mode);
+                    emit(format!("geom {}", req_vec_f(&xs)));
+                }
+            }
+        }
+    }
 }
 
 /// ORDER / MONOTONICITY OF THE DATA (fifth seeded round): samples that are SORTED in some sense - strictly decreasing
